@@ -262,8 +262,8 @@ func envEmpty(e ivEnv) bool {
 }
 
 func checkC18(p *ana.Prog, r *ana.Result) {
-	r.Explain("C18 (finite/structural clauses): normalised sub-second part - an interval analysis (closed integer intervals over the SSA of unixutil.TimevalFromNsec: division and remainder by a positive constant, +-constant, refinement by comparisons with constants; sound, no execution) proves Usec in [0, 10^9) for every int64 input, and the -1 on Sec happens on exactly the edge on which Usec gets +10^9; 48-bit seconds packing of CSPTP timestamps agrees in both directions with range guards (shared with C14); single truncation - csptp.ClockOffset and MeanPathDelay are one division by two of the integer combination of the two one-way terms (never a difference/sum of two halves), C2SDelay/S2CDelay are their linear forms, DurationFromTimeInterval is an arithmetic shift by 16; scaled-ppm conversion uses the same factor 65536*10^6 in both directions; SystemClock.Drift is timemath.Duration(duration.Seconds() * c.drift) (proportional) or the UnknownDrift sentinel.")
-	r.Undecided("sec*10^9 + usec == input (relational), float rounding of the ppm conversion and of Drift, the CSPTP identities as value properties")
+	r.Explain("C18: seconds/sub-second split - a path-wise proof over unixutil.TimevalFromNsec (closed arbitrary-precision intervals refined by the comparisons on the path, and exact linear forms over the input, its truncated quotient and its remainder by a positive constant, every +, -, * admitted only if its interval excludes int64 wrap-around) shows, for every int64 input and on every feasible path, 0 <= Usec < 10^9 and Sec*10^9 + Usec == input, using only n == k*(n/k) + n%k and |n%k| < k with the sign of n; CSPTP timestamp packing - a bit-level abstract interpretation (each bit is 0, 1, a named bit of t.Unix() / t.Nanosecond() / a Seconds byte, or unknown; shifts, |, &, conversions, carry-free +, array and struct elements exact; counted loops followed by constant propagation; branches on input bits followed only when the other side panics, recording the interval) shows that TimestampFromTime stores bits 40-8i..47-8i of the second count in Seconds[i] for second counts in [0, 2^48-1] (others panic) and the nanoseconds unchanged, and that TimeFromTimestamp returns time.Unix(sec, nsec) built from exactly these bits zero-extended - every timestamp in range round-trips exactly (shared with C14; a structural rule is the fallback when the functions leave the domain); single truncation - csptp.ClockOffset and MeanPathDelay are one division by two of the integer combination of the two one-way terms (never a difference/sum of two halves), C2SDelay/S2CDelay are their linear forms, DurationFromTimeInterval is an arithmetic shift by 16; scaled-ppm conversion uses the same factor 65536*10^6 in both directions; SystemClock.Drift is timemath.Duration(duration.Seconds() * c.drift) (proportional) or the UnknownDrift sentinel. Nothing is executed: all three analyses work on the SSA form with abstract values.")
+	r.Undecided("float rounding of the ppm conversion and of Drift (one unit in the last place), the CSPTP offset/delay identities as value properties beyond their linear form, time.Unix / Time.Unix / Time.Nanosecond themselves (standard library, trusted: Nanosecond() in [0, 999999999])")
 	c18Timeval(p, r)
 	c14Timestamp(p, r)
 	for _, o := range r.Obls {
